@@ -73,13 +73,32 @@ def usesUserBuf (api : Api) (h : Hint) (r : Req) : Bool :=
   | .bput => false
   | .bputVarn => false
 
+/-- does MPI_File_write receive the user's buffer address?  ncmpio_read_write (ncmpio_file_io.c)
+    packs a NONCONTIGUOUS buffer of at most nc_ibuf_size bytes (default 16 MiB) into a temporary
+    before the MPI call, so MPI sees the user buffer only when xbuf == buf and the buffer type is
+    contiguous.  (Requests above nc_ibuf_size are outside the harness's range.) -/
+def mpiGetsUserBuf (api : Api) (h : Hint) (r : Req) : Bool := usesUserBuf api h r && r.contig
+
 /-- `need_swap_back_buf` / NC_REQ_BUF_BYTE_SWAP of a write request -/
 def swapFlag (api : Api) (h : Hint) (r : Req) : Bool := usesUserBuf api h r && r.needSwap
 
-/-- the user buffer while the request is pending / while MPI-IO runs: swapped in place exactly
-    when xbuf == buf and a swap is needed (`ncmpii_in_swapn(xbuf, …)` in put_varm / pack_xbuf) -/
-def duringIO (api : Api) (h : Hint) (r : Req) (buf : List UInt8) (nelems : Int) (esize : Nat) : List UInt8 :=
-  if usesUserBuf api h r && r.needSwap then inSwapn buf nelems esize else buf
+/-- effect of `ncmpio_pack_xbuf(…, buf, xbuf)` on the USER buffer, given whether the caller passed
+    xbuf == buf.  `none` = the user buffer would be overwritten with converted data (the callers
+    never pass xbuf == buf together with need_convert — that is part of `user_buffer_restored`). -/
+def packUser (r : Req) (xbufIsBuf : Bool) (buf : List UInt8) (nelems : Int) (esize : Nat) : Option (List UInt8) :=
+  if r.needConvert then (if xbufIsBuf then none else some buf)          -- putn writes xbuf
+  else if r.needSwap then some (if xbufIsBuf then inSwapn buf nelems esize else buf)   -- in_swapn(xbuf)
+  else some buf                                                          -- memcpy(xbuf, buf) at most
+
+/-- the user buffer while MPI-IO runs / while the request is pending.
+    blocking put_varm: `xbuf = buf; if (need_swap) { in_swapn(xbuf); need_swap_back_buf = 1; }`
+    or a fresh xbuf filled by pack_xbuf; nonblocking: pack_xbuf is always called. -/
+def duringIO (api : Api) (h : Hint) (r : Req) (buf : List UInt8) (nelems : Int) (esize : Nat) : Option (List UInt8) :=
+  match api with
+  | .blockingPut =>
+    if usesUserBuf api h r then some (if r.needSwap then inSwapn buf nelems esize else buf)
+    else packUser r false buf nelems esize
+  | _ => packUser r (usesUserBuf api h r) buf nelems esize
 
 /-- the three exits (end of blocking put_varm, req_commit after the wait, ncmpio_cancel): all of
     them test the recorded flag and swap back -/
@@ -168,8 +187,11 @@ def S.bput (s : S) (h : Nat) (nbytes : Int) : S × Int :=
 /-- ncmpi_iput_var*: queued, no attached-buffer space -/
 def S.iput (s : S) (h : Nat) (nbytes : Int) : S := { s with pend := s.pend ++ [⟨h, -1, nbytes⟩] }
 
+/-- the marking loop over the completed lead requests: every slot whose index is the abuf_index of
+    one of them gets is_used = 0 (requests with abuf_index = -1 are iputs) -/
 def releaseAll (a : A) (ps : List PReq) : A :=
-  ps.foldl (fun acc p => if p.abufIndex ≥ 0 then acc.release p.abufIndex.toNat else acc) a
+  { a with table := a.table.mapIdx (fun i s =>
+      if ps.any (fun p => decide (p.abufIndex = (i : Int))) then { s with isUsed := false } else s) }
 
 /-- req_commit for a wait that completes the pending write requests `hs` (and possibly reads):
     mark their slots unused, then — only if at least one write request was completed — coalesce -/
